@@ -183,9 +183,11 @@ def TimeRange.latch (r : TimeRange) (timed inRange ended : Bool) : TimeRange :=
   else { r with ended := ended }
 
 /-- `is_in_range(message, return_timestamps)`: the new state and the boolean result (the timestamps of the
-tuple form are the extracted ones and carry no state). -/
+tuple form are the extracted ones and carry no state).  The first shortcut (no range specified, no timestamps
+asked for) is only taken once `p1_t0` is known: until then the message is still looked at, so that the first P1
+time to arrive is recorded. -/
 def TimeRange.isInRange (r : TimeRange) (retTs : Bool) (m : Msg) : TimeRange × Bool :=
-  if r.specified = false ∧ retTs = false then ({ r with started := true }, true)
+  if r.specified = false ∧ retTs = false ∧ r.t0.isSome = true then ({ r with started := true }, true)
   else if r.specified = false then ({ r.extract m with started := true }, true)
   else ((r.extract m).latch m.p1?.isSome (r.test m.p1?).1 (r.test m.p1?).2, (r.test m.p1?).1)
 
